@@ -23,6 +23,8 @@ var c12Palettes = [][]c12Field{
 	{{name: "A"}, {name: "b"}, {name: "Emb", embedded: true}, {name: "T", tag: `json:"t"`}},
 	{{name: "Foo"}, {name: "foo"}, {name: "Bar", ptr: true}, {name: "baz", tag: `json:"baz" yaml:"z"`}},
 	{{name: "A"}, {name: "B", ptr: true}, {name: "Ωmega"}, {name: "X1"}, {name: "x1"}},
+	// tags that merely look like the one wire honours
+	{{name: "A", tag: `protowire:"-"`}, {name: "B", tag: `json:"-"`}, {name: "C", tag: `nowire:"-" json:"c"`}, {name: "D", tag: `wire2:"-" x:"wire:\"-\""`, ptr: true}},
 }
 
 // c12StructProgram: one struct type; for every subset of its non-prevented fields an
